@@ -307,7 +307,9 @@ def dns(ident, flags, qs, ans=(), auth=(), add=(), counts=None, namekeys=False):
         b += n + struct.pack("!HH", t, c)
     for n, t, c, ttl, rd in list(ans) + list(auth) + list(add):
         marks += [len(b), len(b) + 1, len(b) + len(n) + 1, len(b) + len(n) + 8, len(b) + len(n) + 9, len(b) + len(n) + 10, len(b) + len(n) + 11]
-        if namekeys:
+        if namekeys == "rr":             # a frame with many records: only the type and rdlength octets and the names inside the record data
+            keys += [len(b) + len(n) + 1, len(b) + len(n) + 9]
+        elif namekeys:
             keys += name_offsets(n, len(b)) + [len(b) + len(n) + 1, len(b) + len(n) + 8, len(b) + len(n) + 9]
             if t in (2, 5, 12): keys += name_offsets(rd, len(b) + len(n) + 10)
             if t == 15: keys += name_offsets(rd[2:], len(b) + len(n) + 12)
@@ -459,7 +461,7 @@ def corpus():
     D("dns-name-past-end", [(b"\x09abc", 1, 1)])
     D("dns-rr-types", [(short, 255, 1)], ans=[(b"\xc0\x0c", 1, 1, 60, bytes([10, 0, 0, 1])), (b"\xc0\x0c", 1, 1, 60, bytes([10, 0, 1])),
                                                 (b"\xc0\x0c", 28, 1, 60, IP6_A[:15]), (b"\xc0\x0c", 15, 1, 60, b"\x00\x05\x02mx\xc0\x0c"),
-                                                (b"\xc0\x0c", 15, 1, 60, b"\x00"), (b"\xc0\x0c", 12, 1, 60, b"\xc0\x0e"), (b"\xc0\x0c", 16, 1, 60, b"")])
+                                                (b"\xc0\x0c", 15, 1, 60, b"\x00"), (b"\xc0\x0c", 12, 1, 60, b"\xc0\x0e"), (b"\xc0\x0c", 16, 1, 60, b"")], namekeys="rr")
     D("dns-rr-a-bad", [], ans=[(short, 1, 1, 60, bytes([10, 0, 1]))], namekeys="none")
     D("dns-rr-aaaa-bad", [], ans=[(short, 28, 1, 60, IP6_A[:15])], namekeys="none")
     D("dns-rr-rdata-ptr-loop", [], ans=[(short, 5, 1, 60, b"\xc0\x1c")])
